@@ -67,6 +67,15 @@ class Sim:
         self.ops = []
 
     # --- model semantics -------------------------------------------------------------------------
+    def sort_key(self, op):
+        "op = ('sort', reverse[, key kind]): None (natural order), 1 = a key with ties (parity / arity), 2 = constant key."
+        kind = op[2] if len(op) > 2 else 0
+        if kind == 1:
+            return (lambda x: x.arity) if self.kind == 'predicates' else (lambda x: x % 2)
+        if kind == 2:
+            return lambda x: 0
+        return None
+
     def conflicts(self, v, leaving=()):
         "Predicates: a member with the same symbol but another arity (not among those leaving)."
         if self.kind != 'predicates':
@@ -173,7 +182,7 @@ class Sim:
                     m.append(v)
             return 'bulk'
         if name == 'sort':
-            m.sort(reverse=op[1]); return 'single'
+            m.sort(key=self.sort_key(op), reverse=op[1]); return 'single'
         if name == 'reverse':
             m.reverse(); return 'single'
         if name == 'clear':
@@ -220,7 +229,9 @@ class Sim:
         elif name == 'setslice': c[slice(*op[1])] = [val(x) for x in op[2]]
         elif name == 'extend': c.extend([val(x) for x in op[1]])
         elif name == 'update': c.update([val(x) for x in op[1]])
-        elif name == 'sort': c.sort(reverse=op[1])
+        elif name == 'sort':
+            k = self.sort_key(op)
+            c.sort(reverse=op[1]) if k is None else c.sort(key=k, reverse=op[1])
         elif name == 'reverse': c.reverse()
         elif name == 'clear': c.clear()
         elif name == 'copy': self.real = c.copy()
@@ -434,8 +445,8 @@ def make_machine(kind, acc):
             @rule(x=v, nb=v, rel=st.sampled_from([-1, 1]))
             def wedge(self, x, nb, rel): self.go(('wedge', x, nb, rel))
         else:
-            @rule(r=st.booleans())
-            def sort(self, r): self.go(('sort', r))
+            @rule(r=st.booleans(), k=st.integers(0, 2))
+            def sort(self, r, k): self.go(('sort', r, k))
 
         def teardown(self):
             acc.case((kind, self.sim.ops), nontrivial=self.sim.nontrivial, classes=(kind, 'state-machine'),
@@ -464,7 +475,7 @@ def small_alphabet(kind):
     if kind == 'linqset':
         ops += [('wedge', 2, 0, 1), ('wedge', 1, 0, -1)]
     else:
-        ops += [('sort', False), ('sort', True)]
+        ops += [('sort', False), ('sort', True), ('sort', True, 1), ('sort', False, 1)]
     return ops
 
 
